@@ -338,20 +338,30 @@ pub fn run() {
             // and lets the initial administrator log in (the user is created through raft after the start)
             ["upauth", ttl] => {
                 AUTH_TTL.store(ttl.parse().unwrap_or(3), std::sync::atomic::Ordering::SeqCst);
-                base = free_base();
-                nodes = vec![NodeP { id: 1, http: base, dir: work.path().join("n1"), child: None, stopped: false }];
-                let _ = std::fs::create_dir_all(&nodes[0].dir);
-                nodes[0].spawn(base, snap);
-                let deadline = std::time::Instant::now() + Duration::from_secs(40);
+                // as in `up`: a node occasionally cannot commit after its start (its automatic initialisation races with the
+                // injection of the managers inside config_factory) - then the administrator is never created: retry afresh
                 let mut r = "dead no-login".to_string();
-                while std::time::Instant::now() < deadline {
-                    if let Some((200, b)) = http(base, "POST", "/nacos/v1/auth/login?username=admin&password=admin", 3000) {
-                        if b.contains("accessToken") {
-                            r = "ok".to_string();
-                            break;
-                        }
+                for attempt in 0..3 {
+                    for n in nodes.iter_mut() {
+                        n.kill();
                     }
-                    std::thread::sleep(Duration::from_millis(300));
+                    base = free_base();
+                    nodes = vec![NodeP { id: 1, http: base, dir: work.path().join(format!("n1_{}", attempt)), child: None, stopped: false }];
+                    let _ = std::fs::create_dir_all(&nodes[0].dir);
+                    nodes[0].spawn(base, snap);
+                    let deadline = std::time::Instant::now() + Duration::from_secs(25);
+                    while std::time::Instant::now() < deadline {
+                        if let Some((200, b)) = http(base, "POST", "/nacos/v1/auth/login?username=admin&password=admin", 3000) {
+                            if b.contains("accessToken") {
+                                r = "ok".to_string();
+                                break;
+                            }
+                        }
+                        std::thread::sleep(Duration::from_millis(300));
+                    }
+                    if r == "ok" {
+                        break;
+                    }
                 }
                 r
             }
